@@ -211,6 +211,19 @@ impl<'m> MCTPSMBusContext<'m> {
         self.uuid.copy_from_slice(uuid)
     }
 
+    /// Copy the instance ID of a request into the response generated for
+    /// it. The response encoders use instance ID 0, a response has to carry
+    /// the instance ID of the request it answers.
+    ///
+    /// `instance_id`: The instance ID of the request.
+    /// `response`: The complete response packet, including the PEC.
+    fn echo_instance_id(instance_id: u8, response: &mut [u8]) {
+        let pec_offset = response.len() - 1;
+
+        response[9] |= instance_id & 0x1F;
+        response[pec_offset] = pec(&response[0..pec_offset]);
+    }
+
     /// Get the SMBus headers from a packet
     ///
     /// `packet`: A buffer of the packet to get the headers from.
@@ -604,6 +617,10 @@ impl<'m> MCTPSMBusContext<'m> {
                                         response_buf,
                                     )
                                     .unwrap();
+                                Self::echo_instance_id(
+                                    header.instance_id(),
+                                    &mut response_buf[0..len],
+                                );
                                 return Ok(((msg_type, payload), Some(len)));
                             }
 
@@ -683,6 +700,7 @@ impl<'m> MCTPSMBusContext<'m> {
                         }
                     }
 
+                    Self::echo_instance_id(header.instance_id(), &mut response_buf[0..len]);
                     return Ok(((msg_type, payload), Some(len)));
                 }
 
